@@ -68,6 +68,9 @@ def binders(depth, ctr, pats):
             c1, c2 = ctr.next(), ctr.next()
             # inner block binding that must vanish afterwards
             yield (lambda obs, name=name, c1=c1, inner=inner: "let z: u16 = { let %s: u16 = %d; %s }; %s" % (name, c1, name, inner(obs)))
+            # a block that mixes a let with expression statements (its bindings must vanish like those of any block)
+            yield (lambda obs, name=name, c1=c1, inner=inner: "let z: u16 = { let %s: u16 = %d; assert!(jet::eq_16(%s, %d)); (); %s }; %s" % (name, c1, name, c1, name, inner(obs)))
+            yield (lambda obs, name=name, c1=c1, inner=inner: "let t: (u16, u16) = ({ let q: u16 = %d; assert!(jet::eq_16(q, %d)); q }, %s); %s" % (c1, c1, name, inner(obs)))
             # match arm binding
             yield (lambda obs, name=name, c1=c1, c2=c2, inner=inner:
                    "let z: u16 = match Left(%d) { Left(%s: u16) => %s, Right(%s: u16) => %d, }; %s" % (c1, name, name, name, c2, inner(obs)))
